@@ -163,7 +163,7 @@ static void generator_cases(Harness &H, const char *tn, const std::vector<T> &al
   });
 }
 
-using S = QP;
+using S = vf::DefaultScalar;
 
 static void support_cases(Harness &H) {
   for (size_t n = 2; n <= 4; n++) {
